@@ -6,6 +6,6 @@ CONSTANTS
   Vocab = "all"
 INIT RInit
 NEXT RNext
-ACTION_CONSTRAINT EmitCase
+ACTION_CONSTRAINT REmit
 INVARIANTS TypeOK RegsTyped
 CHECK_DEADLOCK FALSE
